@@ -26,4 +26,4 @@ Produce TWO different changes (two independent patches, each against the pristin
  3. is REALISTIC — the kind of thing a refactor, an optimisation or a careless bug-fix would introduce, a few lines, plausible in code review — and NOT something ordinary use would expose at once: it must need something specific to manifest (a particular interleaving, a crash or fault at a particular point, a multi-step sequence of operations, an unusual input, or two cooperating code sites that each look fine alone). The two changes should use different mechanisms / code sites;
  4. comes with a DEMONSTRATION: a Go test file (placed in the package it tests, e.g. internal/server/zz_demo_test.go) or a small program that FAILS with the change applied and PASSES on the pristine HEAD. Verify both directions yourself. The demonstration may use internal APIs, sleeps, goroutines, fake backends (net/http/httptest) etc. Keep it deterministic enough to fail reliably (≥ 9 of 10 runs) with the change.
 
-Deliver in {out}/: `1/patch.diff` (output of `git diff` for the production-code change only, without the demo file), `1/demo_test.go` (or demo program) and `1/README.md` (which property clause it breaks, what it needs in order to manifest, exact commands you ran and their results with/without the change); same under `2/`. Leave the worktree clean at the end (`git -C {wt} checkout -- . && git -C {wt} clean -fdq`). Lines calling verifEvent/verifYield/verifTargetCreated in the code are inert instrumentation hooks (no-ops); leave them alone. Finish with a three-line summary per change.""" + (("\n\nEarlier exercises already used these mechanisms — choose DIFFERENT ones (different code sites and different triggering conditions): " + avoid) if avoid else ""))
+Deliver in {out}/: `1/patch.diff` (output of `git diff` for the production-code change only, without the demo file), `1/demo_test.go` (or demo program) and `1/README.md` (which property clause it breaks, what it needs in order to manifest, exact commands you ran and their results with/without the change); same under `2/`. Do NOT use `git stash` (the stash is shared between all worktrees of the repository and other engineers work in sibling worktrees): save your change with `git diff > file`, undo with `git checkout -- .`, re-apply with `git apply file`. Leave the worktree clean at the end (`git -C {wt} checkout -- . && git -C {wt} clean -fdq`). Lines calling verifEvent/verifYield/verifTargetCreated in the code are inert instrumentation hooks (no-ops); leave them alone. Finish with a three-line summary per change.""" + (("\n\nEarlier exercises already used these mechanisms — choose DIFFERENT ones (different code sites and different triggering conditions): " + avoid) if avoid else ""))
